@@ -46,7 +46,11 @@ def load_variants(only: str | None = None) -> list[dict]:
 
 def apply_variant(root: str, v: dict, dest: str) -> None:
     shutil.copytree(os.path.join(root, "src"), os.path.join(dest, "src"), ignore=shutil.ignore_patterns("__pycache__", "*.pyc"))
-    for e in v["edits"]:
+    for cmd in v.get("cmds", []):
+        r = subprocess.run(cmd, shell=True, cwd=dest, capture_output=True, text=True)
+        if r.returncode != 0:
+            raise RuntimeError(f"variant {v['id']}: command failed: {cmd}: {r.stderr[-200:]}")
+    for e in v.get("edits", []):
         p = os.path.join(dest, e["file"])
         with open(p, encoding="utf-8") as f:
             s = f.read()
@@ -57,7 +61,7 @@ def apply_variant(root: str, v: dict, dest: str) -> None:
         with open(p, "w", encoding="utf-8") as f:
             f.write(s)
     # the variant must still be syntactically valid python
-    for e in v["edits"]:
+    for e in v.get("edits", []):
         with open(os.path.join(dest, e["file"]), encoding="utf-8") as f:
             compile(f.read(), e["file"], "exec")
 
